@@ -355,3 +355,38 @@ pub fn drive_cache_control(
     }
     cache_control
 }
+
+/// Drives the three measuring visitors (cache control, complexity, depth), composed as
+/// `check_rules` composes them, over ONE field selected on `parent`: `enter_document`,
+/// then - with `parent` as the parent type of the walk, as `visit_selection` arranges it -
+/// `enter_field` / `exit_field`, then `exit_document`.
+/// Returns `(cache control, complexity, depth, number of errors)`.
+pub fn drive_field_visitors(
+    registry: &Registry,
+    doc: &ExecutableDocument,
+    parent: &MetaType,
+    field: &Positioned<Field>,
+) -> (CacheControl, usize, usize, usize) {
+    let mut cache_control = CacheControl::default();
+    let mut complexity = 0;
+    let mut depth = 0;
+    let errors = {
+        let mut ctx = VisitorContext::new(registry, doc, None, None);
+        let mut visitor = VisitorNil
+            .with(CacheControlCalculate {
+                cache_control: &mut cache_control,
+            })
+            .with(ComplexityCalculate::new(&mut complexity))
+            .with(DepthCalculate::new(&mut depth));
+        visitor.enter_document(&mut ctx, doc);
+        ctx.with_type(Some(parent), |ctx| {
+            ctx.with_type(None, |ctx| {
+                visitor.enter_field(ctx, field);
+                visitor.exit_field(ctx, field);
+            })
+        });
+        visitor.exit_document(&mut ctx, doc);
+        ctx.errors.len()
+    };
+    (cache_control, complexity, depth, errors)
+}
